@@ -151,6 +151,13 @@ func (f *Fetcher) Fetch(ctx context.Context, txID ids.ID, keys []string) error {
 		f.l.Unlock()
 		return f.err
 	}
+	if _, ok := f.txs[txID]; ok {
+		// The keys of this transaction are already registered. Registering the
+		// same txID again would replace the waiter other callers of [Get] hold
+		// and double count the blockers of the new one.
+		f.l.Unlock()
+		return nil
+	}
 	var (
 		tx       = &tx{keys: keys}
 		tasks    = make([]*task, 0, len(keys))
